@@ -86,9 +86,18 @@ def run(report, p):
                                         continue
                                     raise AnalysisError(f"{f.loc(rt)}: a value written into the rename map has a source this checker does not model: {show(vv)[:120]}")
         else:
+            # {join(root, previous path): join(root, current path)} as a filling loop or as a dict comprehension
             st2 = [n for n in walk_no_nested(f.node) if isinstance(n, ast.Assign) and isinstance(n.targets[0], ast.Subscript)]
-            ok = len(st2) == 1 and "previous_path" in norm(st2[0].targets[0].slice) and norm(st2[0].value).endswith(".path)") and "previous_path" not in norm(st2[0].value)
-            r1.check(ok, f, st2[0] if st2 else f.node, "the rename map is not {previous path -> current path}", construct="rename map direction")
+            comps = [n for n in walk_no_nested(f.node) if isinstance(n, ast.DictComp)]
+            pairs = [(n.targets[0].slice, n.value, n) for n in st2] + [(c.key, c.value, c) for c in comps]
+            ok = len(pairs) == 1 and "previous_path" in norm(pairs[0][0]) and norm(pairs[0][1]).endswith(".path)") and "previous_path" not in norm(pairs[0][1])
+            r1.check(ok, f, pairs[0][2] if pairs else f.node, "the rename map is not {previous path -> current path}", construct="rename map direction")
+            for c in comps:
+                gen = c.generators[0]
+                r1.instance(f, c, f"for {norm(gen.target)} in {norm(gen.iter)} (comprehension)")
+                r1.check(len(c.generators) == 1 and is_plain_iter(p, gen.iter), f, gen.iter, "the rename map is built from a slice / filtered view", construct=gen.iter)
+                okf = all(norm(i).replace(" ", "") in (f"{norm(gen.target)}.previous_pathisnotNone", f"{norm(gen.target)}.previous_path!=None", f"{norm(gen.target)}.previous_path") for i in gen.ifs)
+                r1.check(okf, f, c, "records are left out of the rename map by a condition other than 'has no previous path'", construct="rename map filter")
 
     # ------------------------------------------------------------------ R17.2 (sibling rewrite; shared with C03 R3.1)
     r2 = report.rule("R17.2", "one rewrite, three commands: create, verify and diff map the expected set through the same {p -> renamed[p] if renamed else p} comprehension over history.renamed_path_with_previous_path()", 3)
